@@ -38,6 +38,10 @@ class HarnessError(Exception):
     """Something is wrong with the machinery (never reported as a violation)."""
 
 
+class CaseTimeout(BaseException):
+    """Raised asynchronously (ITIMER_PROF) when one case burns more CPU than the per-case budget."""
+
+
 @dataclass
 class Failure:
     sig: str
@@ -68,18 +72,24 @@ def spec_size(spec) -> int:
 _LIBROOT = os.sep + os.path.join("dissect", "hypervisor") + os.sep
 
 
-def exc_frame(exc: BaseException) -> str:
-    """'<file>:<function>' of the innermost dissect.hypervisor frame of the traceback (or innermost frame)."""
+def exc_frame(exc: BaseException, outermost: bool = False) -> str:
+    """'<file>:<function>' of the innermost (or outermost) dissect.hypervisor frame of the traceback."""
     tb = traceback.extract_tb(exc.__traceback__)
     pick = None
     for fr in tb:
         if _LIBROOT in fr.filename:
             pick = fr
+            if outermost:
+                break
     if pick is None and tb:
         pick = tb[-1]
     if pick is None:
         return "?"
     return f"{os.path.basename(pick.filename)}:{pick.name}"
+
+
+def in_library(exc: BaseException) -> bool:
+    return any(_LIBROOT in fr.filename for fr in traceback.extract_tb(exc.__traceback__))
 
 
 class LibRaised(Exception):
@@ -106,6 +116,8 @@ def lib(fn, *args, **kwargs):
         raise
     except HarnessError:
         raise
+    except CaseTimeout:
+        raise  # handled by the worker (hang|<frame> failure, or harness error outside library code)
     except BaseException as e:  # noqa: BLE001 - any exception type is a library outcome
         return None, LibRaised(e)
 
